@@ -1751,11 +1751,15 @@ def df_unslice(df, ub):
 
     """
     n = df.shape[1] if is_df(df) else 1
+    increasing = _is_non_decreasing(ub)
+    if not increasing: ## df_slice reads a decreasing list of bounds backwards, so do we
+        ub = ub[::-1]
     res = dictable(ub = ub, lb = [None] + ub[:-1], i = range(len(ub)))
     res = res(ts = lambda lb, ub: df_slice(df, lb, ub, '(]'))
     res = res(rs = lambda i, ts: dictable(u = ub[i: i+n], j = range(len(ub[i: i+n])))(ts = lambda j: ts[j] if is_df(ts) else ts))
     rs = dictable.concat(res.rs).listby('u').do([pd.concat, nona], 'ts')
-    return dict(rs['u', 'ts'])
+    res = rs['u', 'ts']
+    return dict(res if increasing else res[::-1]) ## the series in the order of the bounds given, as df_slice expects them
 
 
 
